@@ -234,6 +234,7 @@ func main() {
 	out := hutil.NewOut(outPath)
 	defer out.Close()
 	var cases []*WS
+	discOnly := map[int]bool{}
 	if mode == "replay" {
 		b, err := os.ReadFile(os.Args[3])
 		if err != nil {
@@ -298,8 +299,24 @@ func main() {
 				cases = append(cases, &c)
 			}
 		}
+		// root discovery (round 3): roots of every kind in every nesting relation, run through the binary ...
+		nroots, ndisc := 30, 200
+		if tier == "thorough" {
+			nroots, ndisc = 700, 3000
+		}
+		rrng := hutil.NewRng(hutil.SeedFromEnv() ^ 0x5eed0c13)
+		for i := 0; i < nroots; i++ {
+			cases = append(cases, genRoots(rrng, i, false))
+		}
+		// ... and many more (with odd entries) whose tree is only shown to the discovery functions
+		for i := 0; i < ndisc; i++ {
+			w := genRoots(rrng, i, i%3 != 0)
+			w.Name = "disc" + strconv.Itoa(i)
+			discOnly[len(cases)] = true
+			cases = append(cases, w)
+		}
 	}
-	results := make([]Result, len(cases))
+	results := make([]Out, len(cases))
 	var wg sync.WaitGroup
 	sem := make(chan struct{}, max(2, runtime.NumCPU()*3/4))
 	for i := range cases {
@@ -308,7 +325,14 @@ func main() {
 		go func(i int) {
 			defer wg.Done()
 			defer func() { <-sem }()
-			results[i] = RunCase(cases[i], workdir, regal, i)
+			p := Prepare(cases[i], workdir, i)
+			fb := fbrdOf(p)
+			if discOnly[i] {
+				results[i] = Out{Result: Result{Kind: "disc", WS: p.WS, Roots: p.Roots, Before: p.Before, After: p.Before}, Fbrd: fb}
+				os.RemoveAll(p.Base)
+				return
+			}
+			results[i] = Out{Result: p.Execute(regal), Fbrd: fb}
 		}(i)
 	}
 	wg.Wait()
